@@ -90,10 +90,7 @@ func (h *Hub) HandleShipHandshakeStateUpdate(ski string, state model.ShipState) 
 		// always send a delayed update, as the processing of the new state has to be done
 		// and the SHIP message has to be received by the other service before
 		// acting upon the new state is safe
-		go func() {
-			<-time.After(time.Millisecond * 500)
-			h.hubReader.ServicePairingDetailUpdate(ski, pairingDetail)
-		}()
+		h.notifyPairingDetail(ski, pairingDetail, time.Millisecond*500)
 	}
 }
 
